@@ -188,4 +188,10 @@ theorem level0_is_deep_centre (hcomm : ∀ a b, mid a b = mid b a) (k i j : Nat)
   have e2 : 2 ^ k * (i / 2 ^ k) + i % 2 ^ k = i := Nat.div_add_mod _ _
   rw [e1, e2]
 
+/-! ### non-vacuity -/
+
+/-- with the commutative midpoint of `C04.vtxN`: the 4 × 4 grid of tile (1, 1, 0), row 2, column 3, is the centre of tile (3, 7, 2) -/
+example : subsample (· + ·) (tileAt (· + ·) C04.vtxN false 1 1 0).inc 2 (tileAt (· + ·) C04.vtxN false 1 1 0).q 2 3 =
+    centre (· + ·) (tileAt (· + ·) C04.vtxN false 3 7 2) := by decide
+
 end C05
